@@ -78,7 +78,7 @@ def run_abf(exe, case, scratch, timeout=30.0):
         dirs.append(d)
     F = case["freq"]
     out = [None] * len(case["events"])
-    with W.Team(exe, n, dirs, timeout_ms=8000) as T:
+    with W.Team(exe, n, dirs, timeout_ms=4000) as T:
         for r in T.all_do(lambda i: abf_setup(case), timeout):
             if not any(x.startswith("CONFIG err=ok") for x in r):
                 raise W.WalkerTimeout("configuration failed: %s" % r)
@@ -300,7 +300,10 @@ def run_view(exe, case, scratch, timeout=30.0):
       ["rs", bin]        one step of the reader R            ["rr"]             restart of R
       ["ph", k]          R's view of P's current hills file becomes its first k bytes (k None = all on disk)
       ["pl", k]          R's view of P's list file becomes its first k bytes (None = complete)
-      ["pt", k]          R's view of P's state file becomes its first k bytes (None = complete; robustness stream)
+      ["pt", k]          R's view of P's state file becomes its first k bytes (None = complete; not generated: state files are
+                         written to a temporary name and renamed)
+      ["pg", k]          P's record in R's registry file becomes its first k bytes (None = complete); with case["late_register"]
+                         the record is absent until the first "pg" event
     R's view of P's state file follows P atomically (rename), and its view of the hills file restarts empty
     whenever P restarts its hills file, unless a "pt"/"ph" event says otherwise.
     Returns (records, reclen): per event a dict with the parsed dump of the walker that moved, the number of
@@ -322,7 +325,9 @@ def run_view(exe, case, scratch, timeout=30.0):
     def p_files():
         return (os.path.join(pd, "out%d.colvars.m.w1.state" % pgen), os.path.join(pd, "out%d.colvars.m.w1.hills" % pgen))
 
-    view = {"hills_bytes": 0, "state_trunc": None, "p_state_sig": None, "registered": False}
+    view = {"hills_bytes": 0, "state_trunc": None, "p_state_sig": None, "registered": False,
+            "list_ok": True, "reg_ok": not case.get("late_register", False), "reg_own": ""}
+    w1line = "w1 %s\n" % vlist
 
     def sync_view():
         """follow P: a new state file (or hills file generation) is seen at once; the hills view restarts"""
@@ -337,8 +342,9 @@ def run_view(exe, case, scratch, timeout=30.0):
             atomic_write(vhills, b"")
             if not view["registered"]:
                 atomic_write(vlist, full_list)
-                with open(regr, "a") as f:
-                    f.write("w1 %s\n" % vlist)
+                view["reg_own"] = open(regr).read() if os.path.exists(regr) else ""
+                if view["reg_ok"]:
+                    atomic_write(regr, (view["reg_own"] + w1line).encode())
                 view["registered"] = True
 
     out = []
@@ -368,6 +374,11 @@ def run_view(exe, case, scratch, timeout=30.0):
                 view["hills_bytes"] = kk
             elif ev[0] == "pl":
                 atomic_write(vlist, full_list if ev[1] is None else full_list[:ev[1]])
+                view["list_ok"] = ev[1] is None or ev[1] >= len(full_list)
+            elif ev[0] == "pg":
+                if view["registered"]:
+                    atomic_write(regr, (view["reg_own"] + (w1line if ev[1] is None else w1line[:ev[1]])).encode())
+                    view["reg_ok"] = ev[1] is None or ev[1] >= len(w1line)
             elif ev[0] == "pt":
                 sb = read_bytes(p_files()[0]) or b""
                 atomic_write(vstate, sb if ev[1] is None else sb[:ev[1]])
@@ -382,6 +393,7 @@ def run_view(exe, case, scratch, timeout=30.0):
             hb = read_bytes(p_files()[1])
             rec["reclen"] = record_length(hb) if hb and b"}\n" in hb else None
             rec["view_hills_bytes"] = view["hills_bytes"]
+            rec["files_ok"] = view["list_ok"] and view["reg_ok"] and view["state_trunc"] is None
             rec["p_hills_bytes"] = len(hb) if hb is not None else None
             rec["p_state_step"] = state_step(p_files()[0])
             rec["pgen"] = pgen
